@@ -81,6 +81,10 @@ def run_case(acc: Acc, seed: int, idx: int) -> None:
         # targeted: a reindex that is refused half-way (new / edited pages together with a page that
         # currently has a syntax error), then the repair
         kinds = kinds[: rng.randint(0, 4)] + rng.sample(["add_page", "break_page", "edit_body", "add_note", "add_page"], 4) + ["reindex"] + rng.sample(["repair_page", "edit_body", "advance_day"], 2) + ["reindex"] + kinds[-2:]
+    if idx % 4 == 1:
+        # targeted: a page vanishes (deleted / renamed), ANOTHER page gets an edit that needs a write-back,
+        # only that page is reindexed explicitly, then the plain reindex
+        kinds = kinds[: rng.randint(0, 3)] + [rng.choice(["delete_page", "rename_page"]), rng.choice(["add_note", "advance_day"]), rng.choice(["add_note", "edit_body"]), "reindex_last_edited"] + kinds[-1:]
     run.run(kinds)
     acc.count("refused_reindex_runs", run.refusals)
     case["history"] = run.log
